@@ -8,6 +8,11 @@ import RV.Base.Proto
     init s p o c               -> ok          (quad put into the wrapped store directly)
     add w s p o c              -> ok          (through wrapper w ∈ {0,1})
     remove w s p o c           -> ok          (each position a number or `*`)
+    addn w (s p o c)*          -> ok          (Store.addN / += / a parser's adds: GOp.addN)
+    isub w (s p o c)*          -> ok          (Graph.__isub__)
+    set w s p o c              -> ok          (Graph.set)
+    rmctx w c                  -> ok          (ConjunctiveGraph.remove_context)
+    addf w s p o c (s p o)*    -> ok          (quad whose graph is a Graph of another store holding the listed triples)
     bind w pfx ns ov           -> ok          (ov ∈ {0,1})
     pass w                     -> ok          (open / close / destroy / query)
     commit w | rollback w      -> ok
@@ -62,6 +67,31 @@ def DS.op (s : DS) (w : Bool) (o : XOp) : DS :=
     let r := (X2.mk s.m s.log0 s.log1).step (w, o)
     { s with m := r.m, log0 := r.log0, log1 := r.log1 }
 
+/-- a graph-level operation = the calls it makes, in order (both models) -/
+def DS.gop (s : DS) (w : Bool) (g : GOp) : DS :=
+  g.expand.foldl (fun s o =>
+    let a := match o with
+      | .add q => s.abs.step (w, .add q)
+      | .remove p => s.abs.step (w, .remove p)
+      | _ => s.abs
+    { s.op w o with abs := a }) s
+
+def quads? : List String → Option (List Quad)
+  | [] => some []
+  | a :: b :: c :: d :: r => do
+    let q ← quad? a b c d
+    let qs ← quads? r
+    pure (q :: qs)
+  | _ => none
+
+def triples? : List String → Option (List Triple)
+  | [] => some []
+  | a :: b :: c :: r => do
+    let a ← a.toNat?; let b ← b.toNat?; let c ← c.toNat?
+    let ts ← triples? r
+    pure ((a, b, c) :: ts)
+  | _ => none
+
 def DS.boundary (s : DS) (w : Bool) (rollback : Bool) : DS :=
   if s.nested then
     let c : NCmd := match w, rollback with
@@ -92,6 +122,26 @@ def step (s : DS) : List String → DS × String
     match wsel? w, pat? a b c d with
     | some w, some p => ({ s.op w (.remove p) with abs := s.abs.step (w, .remove p) }, "ok")
     | _, _ => (s, "bad-op")
+  | "addn" :: w :: r =>
+    match wsel? w, quads? r with
+    | some w, some qs => (s.gop w (.addN qs), "ok")
+    | _, _ => (s, "bad-op")
+  | "isub" :: w :: r =>
+    match wsel? w, quads? r with
+    | some w, some qs => (s.gop w (.isub qs), "ok")
+    | _, _ => (s, "bad-op")
+  | ["set", w, a, b, c, d] =>
+    match wsel? w, quad? a b c d with
+    | some w, some q => (s.gop w (.set q), "ok")
+    | _, _ => (s, "bad-op")
+  | ["rmctx", w, g] =>
+    match wsel? w, g.toNat? with
+    | some w, some g => (s.gop w (.removeContext g), "ok")
+    | _, _ => (s, "bad-op")
+  | "addf" :: w :: a :: b :: c :: d :: r =>
+    match wsel? w, quad? a b c d, triples? r with
+    | some w, some q, some ts => (s.gop w (.addForeign q ts), "ok")
+    | _, _, _ => (s, "bad-op")
   | ["bind", w, a, b, o] =>
     match wsel? w, a.toNat?, b.toNat?, wsel? o with
     | some w, some a, some b, some o => (s.op w (.bind a b o), "ok")
